@@ -2,8 +2,10 @@ mod core;
 mod known;
 mod norm;
 mod props;
+mod reflex;
 mod runner;
 mod tape;
+mod ucgrun;
 
 use crate::core::{Property, Tier};
 use runner::{Factory, RunConfig};
@@ -11,6 +13,7 @@ use runner::{Factory, RunConfig};
 fn factory_for(id: &str) -> Option<(&'static str, Factory)> {
     Some(match id {
         "C02" => ("C02", |t| Box::new(props::c02::C02::new(t)) as Box<dyn Property>),
+        "C11" => ("C11", |t| Box::new(props::c11::C11::new(t)) as Box<dyn Property>),
         _ => return None,
     })
 }
